@@ -438,19 +438,6 @@ func compactEvents(graph *Graph) ([]Event, error) {
 			events = append(events, epicEvent)
 		}
 
-		if task.ClaimedBy != "" {
-			ts := pickTime(lastClaimAt, task.UpdatedAt)
-			claimEvent, err := newEvent("claim", ts, ClaimEvent{
-				ID:      task.ID,
-				AgentID: task.ClaimedBy,
-				TS:      formatTime(ts),
-			})
-			if err != nil {
-				return nil, err
-			}
-			events = append(events, claimEvent)
-		}
-
 		if task.State != createdState || (!lastStateAt.IsZero() && lastStateAt.After(createdAt)) {
 			ts := pickTime(lastStateAt, task.UpdatedAt)
 			stateEvent, err := newEvent("state", ts, StateEvent{
@@ -462,6 +449,19 @@ func compactEvents(graph *Graph) ([]Event, error) {
 				return nil, err
 			}
 			events = append(events, stateEvent)
+		}
+
+		if task.ClaimedBy != "" {
+			ts := pickTime(lastClaimAt, task.UpdatedAt)
+			claimEvent, err := newEvent("claim", ts, ClaimEvent{
+				ID:      task.ID,
+				AgentID: task.ClaimedBy,
+				TS:      formatTime(ts),
+			})
+			if err != nil {
+				return nil, err
+			}
+			events = append(events, claimEvent)
 		}
 
 		// Emit result events (in chronological order, oldest first)
